@@ -13,6 +13,7 @@ from .. import nbref
 from ..common import lib, viol
 
 PID = "C16"
+ON_LIBRARY_RAISE = "skip"  # the statement is about values that are produced; a raising parse is C01's finding
 LEVEL = "exploration"
 RULE = (
     "Small-scope exhaustive enumeration: every sequence of 2..3 labelled token documents (length 1..3 over the alphabet, both classes present) "
